@@ -256,7 +256,7 @@ fn mask(bpp: usize, v: i64) -> u32 {
     }
 }
 
-/// one operation token: S:x:y:v | D:x:y:v;x:y:v;... | F:x:y:w:h:v | C:v
+/// one operation token: S:x:y:v | D:x:y:v;x:y:v;... | F:x:y:w:h:v | G:x:y:w:h/v,v,... | C:v
 fn apply(fb: &mut dyn FbLike, bpp: usize, op: &str) {
     let (k, rest) = op.split_at(1);
     let rest = &rest[1..];
@@ -276,6 +276,13 @@ fn apply(fb: &mut dyn FbLike, bpp: usize, op: &str) {
         "F" => {
             let a = i3(rest);
             fb.fill(Rectangle::new(Point::new(a[0] as i32, a[1] as i32), Size::new(a[2] as u32, a[3] as u32)), mask(bpp, a[4]));
+        }
+        "G" => {
+            // G:x:y:w:h/v1,v2,...  fill_contiguous with a finite colour list (shorter / longer than the area allowed)
+            let (r, cols) = rest.split_once('/').unwrap();
+            let a = i3(r);
+            let vs: Vec<u32> = if cols.is_empty() { vec![] } else { cols.split(',').map(|t| mask(bpp, t.parse::<i64>().unwrap())).collect() };
+            fb.fill_contig(Rectangle::new(Point::new(a[0] as i32, a[1] as i32), Size::new(a[2] as u32, a[3] as u32)), &vs);
         }
         "C" => {
             let a = i3(rest);
